@@ -152,6 +152,27 @@ let respond (line : String.t) : String.t =
     let a = parse_term a in
     let strs l = show_term (mk "Strs" "" (List.map (fun x -> Node ({ lk = to_coq "S"; ld = x }, [])) l)) in
     bool_s (tok_ok a) ^ "\t" ^ strs (tokens a)
+  | [ "applicable"; blocks; world; queries ] ->
+    (* blocks: (Blocks "" impl...), world: (World "" impl...), queries: (Queries "" gid...) *)
+    let kids t = match t with Node (_, ks) -> ks in
+    let blocks = kids (parse_term blocks) in
+    let wimpl t =
+      (match t with
+       | Node (_, [ _; Node (_, [ tr ]); self; _; Node (_, items) ]) ->
+         { wi_trait = trait_ref tr; wi_self = self;
+           wi_assoc = List.filter_map (fun it ->
+               match it with
+               | Node (l, [ ty ]) when of_coq l.lk = "IType" ->
+                 let d = of_coq l.ld in
+                 let name = (match String.index_opt d ';' with Some i -> String.sub d (i + 1) (String.length d - i - 1) | None -> d) in
+                 Some (to_coq name, ty)
+               | _ -> None) items }
+       | _ -> raise (Parse_error "bad world impl")) in
+    let w = List.map wimpl (kids (parse_term world)) in
+    let rec nat_to_int = function O -> 0 | S n -> 1 + nat_to_int n in
+    String.concat ";" (List.map (fun q ->
+        String.concat "," (List.map (fun n -> string_of_int (nat_to_int n)) (applicable w blocks q)))
+        (kids (parse_term queries)))
   | [ "wf"; s ] ->
     (match subs_of_term (parse_term s) with
      | None -> "nosubs"
